@@ -310,6 +310,8 @@ fn ctx_request(log: &[u32], mbw: u32, mbh: u32) -> Option<(String, String)> {
             }
             3 => i += 4,
             4 | 5 => i += 2,
+            6 => i += 38,
+            7 => i += 33,
             _ => return None,
         }
     }
@@ -345,12 +347,33 @@ fn mode_request(log: &[u32], mbw: u32, mbh: u32) -> Option<(String, String)> {
             4 => { let c = cur.as_mut()?; c.push('m'); c.push(char::from(b'0' + log[i + 1] as u8)); i += 2; }
             1 => i += 5,
             2 => i += 4,
+            6 => i += 38,
+            7 => i += 33,
             _ => return None,
         }
     }
     if let Some(m) = cur.take() { mbs.push(m); }
     if mbs.len() as u32 != mbw * mbh || mbs.iter().any(|m| m.len() != 2 && m.len() != 17) { return None; }
     Some((format!("vp8mode {mbw} {mbh} {} {}", hk::intra_mode_default(), mbs.join(" ")), recorded))
+}
+
+/// the luma border part of the hook's log as a `vp8border` request and the recorded borders
+fn border_request(log: &[u32], mbw: u32, mbh: u32) -> Option<(String, String)> {
+    let mut mbs: Vec<String> = Vec::new();
+    let mut recorded = String::new();
+    let mut i = 0;
+    while i < log.len() {
+        match log[i] {
+            6 => { for k in 0..37 { recorded.push_str(&format!("{:02x}", log[i + 1 + k])); } i += 38; }
+            7 => { mbs.push((0..32).map(|k| format!("{:02x}", log[i + 1 + k])).collect()); i += 33; }
+            1 => i += 5,
+            2 | 3 => i += 4,
+            4 | 5 => i += 2,
+            _ => return None,
+        }
+    }
+    if mbs.len() as u32 != mbw * mbh || recorded.len() as u32 != 74 * mbw * mbh { return None; }
+    Some((format!("vp8border {mbw} {mbh} {}", mbs.join(" ")), recorded))
 }
 
 pub fn frame_case(rep: &mut Report, file: &[u8], label: &str) {
@@ -374,6 +397,11 @@ pub fn frame_case(rep: &mut Report, file: &[u8], label: &str) {
         if mbw * mbh <= 4000 {
             match ctx_request(&ctx_log, mbw, mbh) {
                 Some((line, rec)) => {
+                    if let Some((bl, br)) = border_request(&ctx_log, mbw, mbh) {
+                        let mut l = CTX_LINES.lock().unwrap(); if l.len() < 60000 { l.push((bl, br, case.clone())); }
+                    } else {
+                        rep.disagree(Disagreement { case: case.clone(), got: "malformed border log".into(), expected: "one border and one reconstruction record per macroblock".into(), class: "correspondence", obligation: "tie2: the border-bookkeeping hook log is well-formed".into(), detail: label.into() });
+                    }
                     if let Some((ml, mr)) = mode_request(&ctx_log, mbw, mbh) {
                         for t in ml.split(' ').skip(4) { rep.hit(if t.starts_with('b') { "mode_mb_b_pred" } else { "mode_mb_16x16" }); }
                         let mut l = CTX_LINES.lock().unwrap(); if l.len() < 40000 { l.push((ml, mr, case.clone())); }
@@ -532,14 +560,17 @@ pub fn run(o: &Opts) -> Report {
     let replies = ask_parallel(&o.drv, &lines, 8);
     for ((line, rec, case), reply) in pending.iter().zip(&replies) {
         let is_mode = line.starts_with("vp8mode");
-        rep.hit(if is_mode { "mode_bookkeeping_tie_frames" } else { "context_bookkeeping_tie_frames" });
+        let is_border = line.starts_with("vp8border");
+        rep.hit(if is_border { "border_bookkeeping_tie_frames" } else if is_mode { "mode_bookkeeping_tie_frames" } else { "context_bookkeeping_tie_frames" });
         let model = reply.split("ctx=").nth(1).unwrap_or("?");
         if !reply.starts_with("spec=true") {
-            rep.disagree(Disagreement { case: case.clone(), got: reply.chars().take(80).collect(), expected: "spec=true".into(), class: "correspondence", obligation: if is_mode { "instance of theorem C02.subblock_mode_contexts_are_rfc (model = RFC rule)".into() } else { "instance of theorem C02.coefficient_contexts_are_rfc (model = RFC rule)".into() }, detail: String::new() });
+            rep.disagree(Disagreement { case: case.clone(), got: reply.chars().take(80).collect(), expected: "spec=true".into(), class: "correspondence", obligation: if is_border { "instance of theorem C02.luma_borders_are_rfc (model = RFC rule)".into() } else if is_mode { "instance of theorem C02.subblock_mode_contexts_are_rfc (model = RFC rule)".into() } else { "instance of theorem C02.coefficient_contexts_are_rfc (model = RFC rule)".into() }, detail: String::new() });
         }
         if model != rec {
             let k = model.chars().zip(rec.chars()).position(|(a, b)| a != b).unwrap_or(model.len().min(rec.len()));
-            let ob = if is_mode {
+            let ob = if is_border {
+                "C02: the border pixels (corner, 16 above, 4 above-right, 16 left) every macroblock is predicted from are the neighbouring pixels of the reconstructed frame as RFC 6386 section 12 defines them (127 / 129 outside the frame, above-right of the last column repeats the last pixel above; model Vp8Border.run = specification, proved)"
+            } else if is_mode {
                 "C02: the (above, left) mode contexts of every sub-block mode read are the modes of the neighbouring sub-blocks as RFC 6386 section 11.3 defines them (model Vp8Mode.run = specification, proved)"
             } else {
                 "C02: the context (complexity) passed to every read_coefficients call is the one RFC 6386 section 13.3 defines from the neighbouring blocks (model Vp8Ctx.run = specification, proved)"
